@@ -10,7 +10,7 @@ RULE = ("one-shot: full product key length {16,32} x key pattern x nonce x AAD l
         "decrypt_mut(l), fork; states merged on (phase, aad bytes, data bytes, observed tag-of-clone), run until the frontier is empty within the "
         "byte bounds, so every partition of AAD and data into alphabet pieces is covered; in every state the tag of a finalized clone must equal "
         "the model tag of the bytes so far; non-trivial = some non-empty AAD or data; distinct = program text"
-        " Also: every plaintext length 0..=200 and every AAD length 0..=80 one-shot; buffer placement (AAD and second data piece at every address offset mod 8, +8, 16, 33; lengths 1..=24, 30, 64, 65 after a first piece of every class mod 8); component shards: the Poly1305 limb-steering / corner-state / crafted inputs of C05 and the counter-bit and seek shards of C03 (the AEAD's MAC key and block counter cannot be steered through the AEAD itself); the corpus again on the checked-arithmetic and native builds."
+        " Also: every plaintext length 0..=200 and every AAD length 0..=80 one-shot; buffer placement (AAD and second data piece at every address offset mod 8, +8, 16, 33; lengths 1..=24, 30, 64, 65 after a first piece of every class mod 8); component shards: the Poly1305 limb-steering / corner-state / crafted inputs of C05 and the counter-bit and seek shards of C03 (the AEAD's MAC key and block counter cannot be steered through the AEAD itself); the corpus again on the build without SSE2 (the portable engines selected by the crate itself) and on the checked-arithmetic and native builds."
         " Interference: an incremental encrypt / decrypt pair and the one-shot pair per round count with the programs of every other object type (25 bystander programs) woven between the steps, two ways.")
 ASSUMPTIONS = ["python RFC 8439 AEAD model (validated on 2.8.2) over the ChaCha model of C03", "128-bit keys use Bernstein's 16-byte constants, as the statement requires",
                "content of key/nonce/AAD/plaintext from the pattern alphabet"]
@@ -26,7 +26,7 @@ def builds_needed(tier):
 
 # Own corpus re-run on other builds of the crate (mc/core.py: extra builds). Every observation is compared with the same model.
 def extra_builds(tier):
-    return [("relchk", None), ("native", None), ("fe32", None)]
+    return [("relchk", None), ("native", None), ("fe32", None), ("nosse2", None)]
 
 
 
